@@ -86,7 +86,7 @@ def special_string(rnd):
                        "None", "True", "nan", "inf", "-inf", "nan, nan, nan", "inf,inf,inf", "1e5,1e5,1e5", "٣, ٣, ٣", "１２, １２, １２", "²,²,²", "١٢٣"])
 
 
-ELEMS_NUM = [0, 1, 2, 127, 128, 255, 256, -1, 300, 360, 361, 10 ** 6, -10 ** 6, 2 ** 70, -2 ** 70,
+ELEMS_NUM = [0, 1, 2, 127, 128, 255, 256, -1, 300, 360, 361, 10 ** 6, -10 ** 6, 2 ** 70, -2 ** 70, 10 ** 400, -10 ** 400, 10 ** 309,
              0.0, -0.0, 0.5, 1.0, 1.5, 0.999, 255.0, 255.5, 256.0, -0.5, 1e-9, 1e300, float("nan"), float("inf"), float("-inf"), 120.0, 359.9, 360.0, 100.0]
 ELEMS_STR = ["0", "255", "50%", "100%", "0.5", "1", "abc", "", " ", "12px", "1e2", "-1", "nan", "inf", "٣", "None", "#fff", "red", "120", "50", ".5", "1.", "%"]
 
